@@ -328,6 +328,42 @@ func runC09(c *Ctx) {
 			return true
 		})
 	}
+	// the synchronous helpers report every per-partition error of the response
+	nErrIf := 0
+	for _, key := range []string{"kgo.Client.CommitRecords", "kgo.Client.commitOffsets"} {
+		hf := c.NeedFunc(m, key)
+		if hf == nil {
+			continue
+		}
+		ast.Inspect(hf.Decl.Body, func(x ast.Node) bool {
+			ifs, ok := x.(*ast.IfStmt)
+			if !ok || ifs.Init == nil {
+				return true
+			}
+			as, ok := ifs.Init.(*ast.AssignStmt)
+			if !ok || len(as.Rhs) != 1 {
+				return true
+			}
+			call, ok := as.Rhs[0].(*ast.CallExpr)
+			if !ok || calleeName(hf.Info(), call) != "kerr.ErrorForCode" {
+				return true
+			}
+			nErrIf++
+			v := exprStr(as.Lhs[0])
+			atoms := decompose(ifs.Cond, true, nil)
+			plain := len(atoms) == 1 && atoms[0].Val && nosp(exprStr(atoms[0].Cond)) == v+"!=nil"
+			stores := containsNode(ifs.Body, false, func(y ast.Node) bool {
+				a2, ok := y.(*ast.AssignStmt)
+				return ok && len(a2.Rhs) == 1 && exprStr(a2.Rhs[0]) == v
+			}) || containsNode(ifs.Body, false, func(y ast.Node) bool {
+				r, ok := y.(*ast.ReturnStmt)
+				return ok && len(r.Results) == 1 && exprStr(r.Results[0]) == v
+			})
+			c.Check(plain && stores, "commit-errors-reported", key+": partition error -> returned error#"+ordinal(&nErrIf), ifs.Pos(), m, "every non-zero partition error code is returned", "a per-partition commit error is reported only under `"+nosp(exprStr(ifs.Cond))+"`: the synchronous commit returns nil although the coordinator rejected the commit (retriable errors that outlast the retries, errors on later partitions), so the caller believes offsets are committed that are not")
+			return true
+		})
+	}
+	c.Floor("commit-errors-reported/partition-error-tests", nErrIf, 2)
 	// (3) updateCommitted stores
 	if uf := c.NeedFunc(m, "kgo.groupConsumer.updateCommitted"); uf != nil {
 		ug := uf.Graph()
@@ -378,6 +414,8 @@ func runC08(c *Ctx) {
 		return
 	}
 	c08discard(c, m)
+	c08partialTake(c, m)
+	c08fetchBuffers(c, m)
 	rule := "autocommit-commits-head-only"
 	if f := c.NeedFunc(m, "kgo.groupConsumer.loopCommit"); f != nil {
 		n := 0
@@ -594,4 +632,120 @@ func c08discard(c *Ctx, m *Module) {
 			}
 		}
 	}
+}
+
+// c08partialTake: after a partial take (PollRecords with a limit) the cursor
+// is set to one past the last record that was RETURNED (the prefix handed to
+// the caller), not past the records still buffered: if the rest of the buffered
+// fetch is discarded later (cooperative rebalance), fetching resumes at the
+// cursor and nothing that was never handed out may lie below it.
+func c08partialTake(c *Ctx, m *Module) {
+	rule := "partial-take-cursor-from-returned-records"
+	f := c.NeedFunc(m, "kgo.source.takeNBuffered")
+	if f == nil {
+		return
+	}
+	info := f.Info()
+	// the returned-prefix holder: X in `X.Records = Y.Records[:take...]`
+	var holder types.Object
+	ast.Inspect(f.Decl.Body, func(x ast.Node) bool {
+		as, ok := x.(*ast.AssignStmt)
+		if !ok || len(as.Lhs) != 1 || len(as.Rhs) != 1 {
+			return true
+		}
+		sel, ok := as.Lhs[0].(*ast.SelectorExpr)
+		if !ok || sel.Sel.Name != "Records" {
+			return true
+		}
+		sl, ok := as.Rhs[0].(*ast.SliceExpr)
+		if !ok || sl.Low != nil || sl.High == nil {
+			return true
+		}
+		if id, ok := sel.X.(*ast.Ident); ok {
+			holder = info.Uses[id]
+		}
+		return true
+	})
+	if holder == nil {
+		c.Undecided(rule, f.Key+"#returned prefix", f.Pos(), m, "the assignment of the returned record prefix (X.Records = Y.Records[:take]) was not found")
+		return
+	}
+	// the setOffset literal with offset: L.Offset + 1
+	n := 0
+	ast.Inspect(f.Decl.Body, func(x ast.Node) bool {
+		kv, ok := x.(*ast.KeyValueExpr)
+		if !ok || exprStr(kv.Key) != "offset" {
+			return true
+		}
+		be, ok := unparen(kv.Value).(*ast.BinaryExpr)
+		if !ok || be.Op != token.ADD || exprStr(be.Y) != "1" {
+			return true
+		}
+		sel, ok := unparen(be.X).(*ast.SelectorExpr)
+		if !ok || sel.Sel.Name != "Offset" {
+			return true
+		}
+		n++
+		good := false
+		if id, ok := sel.X.(*ast.Ident); ok {
+			if d := singleDef(f, info.Uses[id]); d != nil {
+				// d == H.Records[len(H.Records)-1] with H the holder
+				if ix, ok := unparen(d).(*ast.IndexExpr); ok {
+					if rsel, ok := ix.X.(*ast.SelectorExpr); ok && rsel.Sel.Name == "Records" {
+						if hid, ok := rsel.X.(*ast.Ident); ok && info.Uses[hid] == holder && nosp(exprStr(ix.Index)) == "len("+nosp(exprStr(ix.X))+")-1" {
+							good = true
+						}
+					}
+				}
+			}
+		}
+		c.Check(good, rule, f.Key+": cursor offset after a partial take", kv.Pos(), m, "last returned record + 1", "the cursor is not set to one past the last record of the returned prefix: it lands past records that are still buffered; if the remainder is discarded (cooperative rebalance keeps the partition) those records are never returned to anyone and later commits pass over them")
+		return true
+	})
+	c.Check(n == 1, rule, f.Key+"#site", f.Pos(), m, "", "partial-take setOffset literal not found")
+}
+
+// c08fetchBuffers: once a fetch response was processed and its offsets are to
+// be kept (setOffsets = true), a response that has records is always buffered
+// before fetch returns: the deferred cleanup advances the cursors of anything
+// not buffered, so returning with records neither buffered nor rewound skips
+// them for good.
+func c08fetchBuffers(c *Ctx, m *Module) {
+	rule := "processed-records-are-buffered"
+	f := c.NeedFunc(m, "kgo.source.fetch")
+	if f == nil {
+		return
+	}
+	info := f.Info()
+	g := f.Graph()
+	buf := m.Field("kgo", "source", "buffered")
+	var has *ast.IfStmt
+	for _, st := range f.Decl.Body.List {
+		if ifs, ok := st.(*ast.IfStmt); ok && strings.HasSuffix(nosp(exprStr(ifs.Cond)), ".hasErrorsOrRecords()") {
+			has = ifs
+		}
+	}
+	if has == nil {
+		c.Undecided(rule, f.Key+"#hasErrorsOrRecords", f.Pos(), m, "the `if fetch.hasErrorsOrRecords()` statement was not found at the top level of fetch")
+		return
+	}
+	isBuffer := func(n ast.Node) bool {
+		as, ok := n.(*ast.AssignStmt)
+		return ok && len(storesTo(as, info, buf, false)) > 0
+	}
+	path, found := armMustPass(g, has, isBuffer)
+	c.Check(!found, rule, f.Key+": a response with records is buffered", has.Pos(), m, "s.buffered is stored on every path of the has-records arm", "fetch can leave the has-records arm without buffering the response ("+pathStr(path)+"): the offsets of the processed response are kept (setOffsets) by the deferred cleanup, so its records are skipped without ever being returned")
+	// and setOffsets = true dominates that arm
+	var set Loc
+	haveSet := false
+	ast.Inspect(f.Decl.Body, func(x ast.Node) bool {
+		if as, ok := x.(*ast.AssignStmt); ok && len(as.Lhs) == 1 && exprStr(as.Lhs[0]) == "setOffsets" && exprStr(as.Rhs[0]) == "true" {
+			if innermostLit(f, as) == nil {
+				set, haveSet = g.LocOf(as)
+			}
+		}
+		return true
+	})
+	hl, _ := g.LocOf(has.Cond)
+	c.Check(haveSet && g.Dominates(set, hl), rule, f.Key+": setOffsets = true precedes the buffering decision", has.Pos(), m, "", "setOffsets = true not found before the buffering decision")
 }
